@@ -543,6 +543,10 @@ def run(check):
     if dis_s == 0:
         check.oblige('correspondence proposals (model sortStr/keys/filter = sorted(n for n in names if not marked(n)) on dict keys)', True)
 
+    # analysis-level transparency as a theorem: C12_mark_transparent (family Extract) under the decidable hypothesis markOK,
+    # evaluated by drv_extract on the REAL unmarked and marked trees of every sampled cursor at the end of / inside a name read
+    mark_transparency(check, quick)
+
     # coverage
     labels = {}
     for c in cases:
@@ -572,6 +576,50 @@ def run(check):
     ]
     check.trusted += ['translators/tr_text.py (ast pattern recogniser; compares unmark/marked/split_pkg/join_pkg/Source.__init__/the head of assist with templates)',
                       "the oracle in harness/c12.py: re.search(r'\\w*$'), sorted/set, and supp's own analysis of the unmarked source"]
+
+
+def mark_transparency(check, quick):
+    import ast as _ast
+    from . import extractcorr, flowgraph, pygen
+    check.prove_also('Extract')
+    ok, out = common.lake_build(['drv_extract'])
+    if not ok:
+        raise common.Infra('drv_extract build failed:\n' + out[-2000:])
+    S = flowgraph.load_supp()
+    rng = check.rng
+    sources = list(extractcorr.SPECIALS)
+    for _ in range(60 if quick else 800):
+        src = pygen.Gen(rng, depth=rng.choice([2, 3])).program()
+        if pygen.valid(src):
+            sources.append(src)
+    import glob
+    import os
+    for fn in sorted(glob.glob(os.path.join(common.REPO, 'supp', '*.py')))[:(6 if quick else 30)]:
+        sources.append(open(fn).read())
+    cases = []
+    for src in sources:
+        try:
+            tree = _ast.parse(src)
+        except SyntaxError:
+            continue
+        names = [n for n in _ast.walk(tree) if isinstance(n, _ast.Name) and isinstance(n.ctx, _ast.Load) and n.lineno == n.end_lineno]
+        rng.shuffle(names)
+        for n in names[:(8 if quick else 25)]:
+            for col in sorted(set([n.end_col_offset, n.col_offset + max(1, (n.end_col_offset - n.col_offset) // 2)])):
+                pos = (n.lineno, col)
+                try:
+                    marked = S['util'].Source(src, '/tmp/none.py', pos).source
+                    _ast.parse(marked)
+                except SyntaxError:
+                    continue
+                cases.append((src, marked, pos))
+    reps = extractcorr.mark_pairs(cases)
+    bad = [(c, r) for c, r in zip(cases, reps) if not r.get('ok')]
+    check.extra['mark_transparency'] = {'cursors': len(cases), 'markOK': len(cases) - len(bad),
+                                        'note': 'markOK = the real marked tree is markTree of the real unmarked tree and the hypotheses of '
+                                                'C12_mark_transparent hold; for those cursors the equality of the tables at the cursor is a theorem'}
+    check.oblige('hypotheses of C12_mark_transparent hold on every sampled real cursor (markPair, evaluated by drv_extract)', not bad,
+                 '; '.join('%r at %s: %r' % (c[0][:80], c[2], {k: v for k, v in r.items() if k != 'newId'}) for c, r in bad[:3]))
 
 
 def short(x, n=300):
